@@ -100,16 +100,16 @@ func (s vC14DuScn) String() string {
 }
 
 type vC14DuOp struct {
-	Kind          string
-	Offset, Tmo   time.Duration
-	Start, Ret    time.Duration
-	Returned      bool
-	Late          bool
-	Err           string
-	cancel        context.CancelFunc
-	started       bool
-	hasDl         bool
-	dl            time.Duration
+	Kind        string
+	Offset, Tmo time.Duration
+	Start, Ret  time.Duration
+	Returned    bool
+	Late        bool
+	Err         string
+	cancel      context.CancelFunc
+	started     bool
+	hasDl       bool
+	dl          time.Duration
 }
 
 type vC14DuRes struct {
@@ -514,7 +514,7 @@ func vC14DuRunInBubble(t *testing.T, c *vh.Case, sc vC14DuScn, target int) *vC14
 
 func TestVerif_C14_dual(t *testing.T) {
 	vh.Run(t, vh.Spec{Prop: "C14", Unit: "dual", Quick: 40, Thorough: 1500, CostMs: 230,
-		Rule: "PRNG dual.DHT over one fake host (WAN client/server, auto-refresh on/off, 6-30 peers half public with a connection / half private, 30% silent/failing/dead, both inner DHTs GC-ing every 0.2-1.1 vs over journaling stores) with 1-5 dual operations and 0-5 connectedness events; reference run counts boundary events, re-runs Close immediately after construction, at 2 events on a background loop's stack and 2 PRNG indices (thorough: all on small scenarios, <= 48); non-trivial = Close while an operation was in flight or on a background loop's boundary event",
+		Rule:    "PRNG dual.DHT over one fake host (WAN client/server, auto-refresh on/off, 6-30 peers half public with a connection / half private, 30% silent/failing/dead, both inner DHTs GC-ing every 0.2-1.1 vs over journaling stores) with 1-5 dual operations and 0-5 connectedness events; reference run counts boundary events, re-runs Close immediately after construction, at 2 events on a background loop's stack and 2 PRNG indices (thorough: all on small scenarios, <= 48); non-trivial = Close while an operation was in flight or on a background loop's boundary event",
 		Clauses: []string{"baseline-clean", "close-returns-in-bound", "no-loop-after-close", "close-again-returns", "op-returns", "no-goroutine-after-2min", "no-subscription-left", "stores-quiet-after-close"}},
 		func(c *vh.Case) {
 			r := c.R
@@ -553,7 +553,7 @@ func TestVerif_C14_dual(t *testing.T) {
 
 func TestVerif_C14_dual_ctor(t *testing.T) {
 	vh.Run(t, vh.Spec{Prop: "C14", Unit: "dual_ctor", Quick: 60, Thorough: 1500, CostMs: 10,
-		Rule: "dual.New failing at an enumerated point: dual option error, WAN option error, WAN Subscribe failing, LAN option error after the WAN DHT started, LAN invalid mode after its stores started, LAN Subscribe failing (2nd Subscribe call); x WAN mode x auto-refresh; oracle: error returned, instance-owned census and live bus subscriptions equal the empty baseline; non-trivial = the failure lies after the WAN DHT started",
+		Rule:    "dual.New failing at an enumerated point: dual option error, WAN option error, WAN Subscribe failing, LAN option error after the WAN DHT started, LAN invalid mode after its stores started, LAN Subscribe failing (2nd Subscribe call); x WAN mode x auto-refresh; oracle: error returned, instance-owned census and live bus subscriptions equal the empty baseline; non-trivial = the failure lies after the WAN DHT started",
 		Clauses: []string{"ctor-returns-error", "ctor-fail-no-goroutine", "ctor-fail-no-subscription"}},
 		func(c *vh.Case) {
 			r := c.R
